@@ -405,10 +405,10 @@ var panicInventory = map[string]belief{
 // assertInventory: "package|asserted type <- operand kind" -> belief.
 var assertInventory = map[string]belief{
 	"internal/astdiff|ast.Node <- call:(reflect.Value).Interface":            {1, "values walked are go/ast nodes"},
-	"internal/astdiff|token.Pos <- call:(*internal/astdiff.value).Interface": {5, "token.Pos typed fields only (guarded by the type test on the field type)"},
+	"internal/astdiff|token.Pos <- call:(internal/astdiff.value).Interface": {5, "token.Pos typed fields only (guarded by the type test on the field type)"},
 	"internal/engine|*ast.ForStmt <- call:(reflect.Value).Interface":         {2, "compileForStmt is called only from the goast.ForStmtPtrType case of compile (checked below)"},
 	"internal/engine|*ast.Ident <- call:(reflect.Value).Interface":           {3, "compileIdent is called only for *ast.Ident values; the import name replacer yields *ast.Ident"},
-	"internal/engine|*engine.span <- call:(*internal/engine.span).Intersect": {1, "result of span.Intersect"},
+	"internal/engine|*engine.span <- call:(internal/engine.span).Intersect": {1, "result of span.Intersect"},
 	"internal/engine|*engine.span <- param:intervalset.Interval":             {5, "the interval set only ever holds *span"},
 	"internal/engine|ast.Node <- call:(reflect.Value).Interface":             {4, "elements of []ast.Stmt / []ast.Expr / []*ast.Field, GenericNodeMatcher candidates and the for-body are ast.Nodes"},
 	"internal/engine|token.Pos <- call:(reflect.Value).Interface":            {3, "Pos matchers/replacers are compiled only for token.Pos fields (checked below) and StructMatcher checked the struct type first"},
@@ -435,7 +435,8 @@ func assertShape(x *ssa.TypeAssert) string {
 	op := "value:" + an.ShortType(x.X.Type())
 	switch v := x.X.(type) {
 	case *ssa.Call:
-		op = "call:" + an.TrimModule(an.CalleeName(v))
+		// (a method is the same operand whether its receiver is a pointer or a value)
+		op = "call:" + strings.Replace(an.TrimModule(an.CalleeName(v)), "(*", "(", 1)
 	case *ssa.Parameter:
 		op = "param:" + an.ShortType(v.Type())
 	}
@@ -633,6 +634,8 @@ func c08APIReturnsErrors(r *an.Run) {
 					if an.IsNilConst(cse.Key) {
 						if ret := an.ReturnOf(cse.Else); ret != nil && derivesFrom(ret.Results[len(ret.Results)-1], ev) {
 							good = true
+						} else if errorReachesEveryReturn(cse.Else, ev) {
+							good = true // single exit: the error travels to the return through a result variable
 						}
 					}
 				}
@@ -836,4 +839,25 @@ func c08TypedNil(r *an.Run) {
 	}
 	r.Count("pointer assertions on reflected values", n)
 	r.Min("pointer assertions on reflected values", 4)
+}
+
+// errorReachesEveryReturn: on every path from block `from` to a return, the
+// error result — with the phis resolved along that path — is a non-nil value
+// computed from ev.
+func errorReachesEveryReturn(from *ssa.BasicBlock, ev ssa.Value) bool {
+	paths, err := an.EnumeratePathsFrom(from, func(ssa.Value) string { return "" }, nil, 256, true)
+	if err != nil || len(paths) == 0 {
+		return false
+	}
+	for _, p := range paths {
+		ret, ok := p.End.Instrs[len(p.End.Instrs)-1].(*ssa.Return)
+		if !ok || len(ret.Results) == 0 {
+			return false
+		}
+		res := p.ResolveOnPath(ret.Results[len(ret.Results)-1])
+		if an.IsNilConst(res) || !derivesFrom(res, ev) {
+			return false
+		}
+	}
+	return true
 }
